@@ -193,7 +193,11 @@ def report(prop: str, status: int, ctx: Optional[Ctx], errors: List[str], tier: 
                 known_hits.append((o, ent))
             else:
                 new_viol.append(o)
+        printed = set()
         for o, ent in known_hits:
+            if (o.rule, o.key) in printed:
+                continue
+            printed.add((o.rule, o.key))
             out(f"KNOWN-FINDING: property={prop} {o.rule} {o.key} - {ent.get('what', o.reason)}")
         if new_viol:
             for o in new_viol:
